@@ -540,3 +540,40 @@ func (e *Exec) GlobalValue(pkgPath, name string) Value {
 	}
 	return nil
 }
+
+// InputValues returns the concrete values of the harness inputs on this path
+// (choices are concrete after concretisation).
+func (e *Exec) InputValues() []uint64 {
+	var out []uint64
+	for _, in := range e.inputs {
+		if in.Sort.K != SBV {
+			continue
+		}
+		if e.model != nil {
+			if v, ok := e.model[in.ID]; ok {
+				out = append(out, v)
+				continue
+			}
+		}
+		// look for an equality in the path condition
+		found := false
+		for _, c := range e.pcs {
+			if c.Op == OEq && len(c.Args) == 2 {
+				if c.Args[0] == in && c.Args[1].IsConst() {
+					out = append(out, c.Args[1].C)
+					found = true
+					break
+				}
+				if c.Args[1] == in && c.Args[0].IsConst() {
+					out = append(out, c.Args[0].C)
+					found = true
+					break
+				}
+			}
+		}
+		if !found {
+			out = append(out, 0)
+		}
+	}
+	return out
+}
